@@ -18,7 +18,6 @@ import (
 	"sync"
 
 	"filippo.io/age"
-	"filippo.io/age/internal/format"
 	"filippo.io/age/plugin"
 	"filippo.io/age/zverif/keys"
 	"filippo.io/age/zverif/mon"
@@ -76,10 +75,9 @@ func rsaPub(pk ssh.PublicKey) *rsa.PublicKey {
 
 // builtFiles assembles binary files whose headers carry stanzas of every
 // recipient type, valid and malformed, under a correct MAC.
-func builtFiles() [][]byte {
+func builtLists() [][]refage.Stanza {
 	f := fix()
-	fk := mon.DetBytes("c14-built-filekey", 16)
-	nonce := mon.DetBytes("c14-built-nonce", 16)
+	fk := builtFileKey
 	eph := mon.DetBytes("c14-built-eph", 32)
 	salt := mon.DetBytes("c14-built-salt", 16)
 	x1 := keys.NewX("X1")
@@ -137,10 +135,17 @@ func builtFiles() [][]byte {
 		[]refage.Stanza{{Type: "ssh-ed25519", Args: []string{e.Args[0], refage.B64(make([]byte, 32))}, Body: e.Body}},
 		[]refage.Stanza{{Type: "X25519", Args: []string{refage.B64(make([]byte, 32))}, Body: x.Body}},
 	)
+	return lists
+}
+
+var builtFileKey = mon.DetBytes("c14-built-filekey", 16)
+
+func builtFiles(lists [][]refage.Stanza) [][]byte {
+	nonce := mon.DetBytes("c14-built-nonce", 16)
 	var out [][]byte
 	for k, l := range lists {
 		pt := mon.DetBytes("c14-built-pt", []int{0, 1, 33, 200}[k%4])
-		out = append(out, refage.BuildFile(fk, l, nonce, pt))
+		out = append(out, refage.BuildFile(builtFileKey, l, nonce, pt))
 	}
 	return out
 }
@@ -194,7 +199,15 @@ func loadSeeds() *seedCorpus {
 				binaries = append(binaries, b)
 			}
 		}
-		for _, b := range builtFiles() {
+		lists := builtLists()
+		for _, l := range lists {
+			st := make([]*age.Stanza, len(l))
+			for i, s := range l {
+				st[i] = &age.Stanza{Type: s.Type, Args: s.Args, Body: s.Body}
+			}
+			add("stanzas", encodeStanzas(st))
+		}
+		for _, b := range builtFiles(lists) {
 			c.nBuilt++
 			add("agefile", b)
 			binaries = append(binaries, b)
@@ -215,10 +228,11 @@ func loadSeeds() *seedCorpus {
 			seenH[k] = true
 			add("header", h)
 			add("stanzatext", stanzaText(h))
-			if hdr, _, err := format.Parse(bytes.NewReader(h)); err == nil && len(hdr.Recipients) > 0 {
-				st := make([]*age.Stanza, len(hdr.Recipients))
-				for i, s := range hdr.Recipients {
-					st[i] = (*age.Stanza)(s)
+			// the reference parser, not the code under test, builds seeds
+			if hdr, _, err := refage.ParseHeader(h); err == nil && len(hdr.Stanzas) > 0 {
+				st := make([]*age.Stanza, len(hdr.Stanzas))
+				for i, s := range hdr.Stanzas {
+					st[i] = &age.Stanza{Type: s.Type, Args: s.Args, Body: s.Body}
 				}
 				add("stanzas", encodeStanzas(st))
 			}
@@ -263,6 +277,10 @@ func loadSeeds() *seedCorpus {
 			refage.Bech32Encode("1", []byte{1}),
 			refage.Bech32Encode("~!1", []byte{1, 2}),
 			"", "1", "a1", "age1", "AGE-SECRET-KEY-1", "a1qqqqq", "a1qqqqqq",
+			// found by exhaustive search: the Bech32 checksum polynomial "verifies"
+			// although fewer than the six checksum characters follow the separator
+			"uz0eica1", "aq3xkta1q", "g6wpvca1qq", "iasstia1qqq", "pmrk4na1qqqq", "4t37mwa1qqqqq",
+			"UZ0EICA1", "4T37MWA1QQQQQ",
 		)
 		for _, s := range b32 {
 			add("bech32", []byte(s))
@@ -309,10 +327,10 @@ func loadSeeds() *seedCorpus {
 		}
 		add("encssh", enc("enc1_ed", "enc1_ed"))
 		add("encssh", enc("enc1_rsa", "enc1_rsa"))
-		add("encssh", enc("enc1_rsa", "enc1_ed"))  // mismatched pair
-		add("encssh", enc("enc1_ed", "enc1_rsa"))  // mismatched pair
+		add("encssh", enc("enc1_rsa", "enc1_ed"))        // mismatched pair
+		add("encssh", enc("enc1_ed", "enc1_rsa"))        // mismatched pair
 		add("encssh", enc("enc_rsa_pem", "enc_rsa_pem")) // legacy PEM encryption
-		add("encssh", enc("ed1", "ed1"))          // not encrypted at all
+		add("encssh", enc("ed1", "ed1"))                 // not encrypted at all
 		add("encssh", enc("rsa1", "rsa1"))
 		add("encssh", enc("ecdsa1", "ecdsa1")) // unsupported type
 		add("encssh", enc("enc_ed1", "enc_ed1"))
